@@ -401,6 +401,11 @@ pub struct StubLog {
     /// bit i set = query element i (first 64) was handed to the strategy at least once
     #[serde(default)]
     pub received: u64,
+    /// callbacks arrived on a thread that is not executing a harness operation while this
+    /// operation ran (library-internal worker threads): attribution by thread-local is then
+    /// impossible and the checks over the recorded outcome are skipped for this operation
+    #[serde(default)]
+    pub foreign_callbacks: bool,
 }
 
 #[derive(Serialize, Deserialize, Clone, Debug, PartialEq)]
